@@ -233,7 +233,8 @@ def build_robot(spec):
         if level == 0:
             body["createObjects"] = lambda self: None
             for h in hooks:
-                body[h] = _mk_method(h, f"R.{h}")
+                if h not in spec.get("omit_hooks", ()):
+                    body[h] = _mk_method(h, f"R.{h}")
             if spec.get("super_robot_periodic"):
                 def robotPeriodic(self):
                     rt.cb("R.robotPeriodic")
